@@ -536,6 +536,9 @@ class Interp:
         if c == "()": return UNIT
         cg = self.W.user.get("consts")
         if cg and c in cg: return cg[c]
+        if c.endswith("::BY_NAME"):
+            t = self._by_name_table(c)
+            if t is not None: return t
         if c.startswith('"'):
             b = _str_lit(c)
             return SliceRef(VecObj(list(b), "static"), 0, len(b), True)
@@ -811,20 +814,32 @@ class Interp:
         raise Unsupported("binop " + op)
 
     # ---------------- calls
-    def unicode_property(self, name, c):
-        """pest::unicode::<NAME>(c): the ucd-trie tables are not encoded; the set is obtained once per run from the compiled
-        function itself, enumerated over all scalar values by verif-native, and used as a range predicate"""
+    def _by_name_table(self, c):
+        """pest::unicode::{binary,category,script}::BY_NAME: rustc's allocation is not in the MIR dump; the (display name, trie)
+        pairs are read from the generated source file, each trie standing for itself as a token naming its identifier"""
+        mod = c.split("::")[-2] if "::" in c else None
+        import native
+        tabs = self.P.__dict__.setdefault("_by_name_tables", None) or native.unicode_tables()
+        self.P.__dict__["_by_name_tables"] = tabs
+        if mod not in tabs: return None
+        arr = Agg([Agg([SliceRef(VecObj(list(disp.encode()), "static"), 0, len(disp.encode()), True), Ptr(Cell(Agg([ident], "TrieToken")))], "tuple") for disp, ident in tabs[mod]], "array")
+        return SliceRef(arr, 0, len(arr.f))
+
+    def unicode_property(self, name, c, via="fn"):
+        """pest::unicode::<NAME>(c) (via="fn") or membership in the trie that sits in the BY_NAME table entry NAME
+        (via="table", what unicode::by_name hands out): the ucd-trie lookup is not encoded; each set is obtained once per run
+        from the compiled code, enumerated over all scalar values by verif-native, and used as a range predicate"""
         cache = self.P.__dict__.setdefault("_unicode_ranges", {})
-        rs = cache.get(name)
+        rs = cache.get((via, name))
         if rs is None:
             import native
-            rep = native.run_lines("unicode-ranges", [name], timeout=600)[0]
-            if not rep.startswith("OK"): raise Unsupported(f"unicode property {name}: {rep[:80]}")
+            rep = native.run_lines("unicode-ranges", [("fn:" if via == "fn" else "") + name], timeout=600)[0]
+            if not rep.startswith("OK"): raise Unsupported(f"unicode property {name} ({via}): {rep[:80]}")
             rs = [tuple(int(x, 16) for x in r.split("-")) for r in rep[3:].split(",") if r]
-            cache[name] = rs
+            cache[(via, name)] = rs
         if not is_sym(c):
             return any(a <= c <= b for a, b in rs)
-        if len(rs) > 400: raise Unsupported(f"unicode property {name} has {len(rs)} ranges: too large to encode")
+        if len(rs) > self.W.user.get("unicode_range_limit", 400): raise Unsupported(f"unicode property {name} has {len(rs)} ranges: too large to encode")
         return z3.Or(*[z3.And(z3.UGE(c, a), z3.ULE(c, b)) if a != b else c == a for a, b in rs]) if rs else False
 
     def call(self, callee, key, args):
